@@ -288,9 +288,24 @@ func (env *Env) eval(x Expr) (*Val, error) {
 			binders = append(binders, "("+name+" "+sort+")")
 			n.vars[qv.Name] = &Val{T: gt, L: []Sc{{name, sort}}}
 		}
+		mark := len(e.out)
 		b, err := n.evalBool(x.Body)
 		if err != nil {
 			return nil, err
+		}
+		// side facts emitted while evaluating the body (typing facts of memory reads, facts of pure calls) may mention
+		// the bound variables: they hold for every value of them, so they are universally closed here
+		for i := mark; i < len(e.out); i++ {
+			ln := e.out[i]
+			if !strings.HasPrefix(ln, "(assert ") {
+				continue
+			}
+			for _, qv := range x.Vars {
+				if strings.Contains(ln, n.vars[qv.Name].L[0].T) {
+					e.out[i] = "(assert (forall (" + strings.Join(binders, " ") + ") " + ln[len("(assert "):len(ln)-1] + "))"
+					break
+				}
+			}
 		}
 		q := "exists"
 		if x.Forall {
